@@ -180,6 +180,9 @@ def batch_evaluate_function(
     else:
         if func_wrapper is None:
             func_wrapper = func
+        if vectorised and not chunksize and n_pool is None:
+            # Cannot split the inputs without knowing the size of the pool
+            vectorised = False
         if vectorised:
             if chunksize:
                 out = np.concatenate(
